@@ -427,9 +427,13 @@ func (ex *Exec) assert(s *State, id string, cond *Term) {
 		st.Solver++
 	case Sat:
 		st.Sat++
-		fs := ex.clone(s)
-		fs.PC = append(fs.PC, neg)
-		ex.recordViolation(fs, id, "assertion "+id+" violated")
+		if st.Sat <= 2 && len(ex.Violations) < 12 {
+			fs := ex.clone(s)
+			fs.PC = append(fs.PC, neg)
+			ex.recordViolation(fs, id, "assertion "+id+" violated")
+		} else {
+			ex.quickModel = nil // further counterexamples of the same obligation are only counted
+		}
 		// continue the path under the assertion to find independent violations
 		s.PC = append(s.PC, cond)
 		s.Unchecked++
